@@ -122,6 +122,31 @@ def install(E):
     def _atomic_default(E, a, ctx):
         return BV(0)
 
+    @reg_re(E, r'^core::num::(<impl \w+>::)?(checked|wrapping|saturating|overflowing)_(add|sub|mul)$')
+    def _int_arith(E, a, ctx):
+        nm = strip(ctx.callee).split('::')[-1]
+        mode, op = nm.split('_')
+        x, y = a
+        if op == 'add':
+            r = x + y
+            o = z3.ULT(r, x)
+        elif op == 'sub':
+            r = x - y
+            o = z3.ULT(x, y)
+        else:
+            r = x * y
+            o = z3.Not(z3.BVMulNoOverflow(x, y, False))
+        if mode == 'wrapping':
+            return r
+        if mode == 'overflowing':
+            return Agg('tuple', [r, o])
+        if mode == 'checked':
+            return NONE if E.decide(o) else some(r)
+        w = x.size()
+        if op == 'sub':
+            return z3.If(o, BV(0, w), r)
+        return z3.If(o, BV((1 << w) - 1, w), r)
+
     @reg(E, 'Duration::from_secs', 'std::time::Duration::from_secs')
     def _dur(E, a, ctx):
         return Agg('Duration', [a[0]])
